@@ -157,15 +157,126 @@ func C06(c *Ctx) {
 
 	const r3 = "K5.bound-operators-agree"
 	c.Rule(r3, "DBIterator.populate and TxnIterator.advance apply the same bound tests: userKey < LowerBound is outside, userKey >= UpperBound is outside (upper bound exclusive); the Seek clamps use the same operators; deleted/expired entries are never materialised; TxnIterator.advance skips versions above readTs")
-	for _, t := range [][2]string{{"DBIterator.populate", "NoKV.DBIterator"}, {"TxnIterator.advance", "NoKV.IteratorOptions"}, {"DBIterator.Seek", "NoKV.DBIterator"}, {"TxnIterator.Seek", "NoKV.IteratorOptions"}} {
+	// decided by order-sign evaluation (any spelling, helper or polarity gives the same verdict):
+	// populate/advance never mark the iterator valid for a key below the lower or at/above the
+	// upper bound and do for keys inside; the Seek entry points let every in-range key reach
+	// the underlying iterator's Seek in both directions
+	for _, t := range [][2]string{{"DBIterator.populate", "NoKV.DBIterator"}, {"TxnIterator.advance", "NoKV.TxnIterator"}} {
 		fn := c.Fn("", t[0])
 		if fn == nil {
 			continue
 		}
-		ops := boundOps(fn, t[1])
-		lo, hi := uniq(ops["lowerbound"]), uniq(ops["upperbound"])
-		c.Decide(len(lo) == 1 && lo[0] == "<", r3, key(fn, "lower-bound:<"), fn.Pos(), len(ops["lowerbound"])+1, "below-lower test is `<`", fmt.Sprintf("%s tests the lower bound with %v (expected only `<`: the lower bound is inclusive)", t[0], lo))
-		c.Decide(len(hi) == 1 && hi[0] == ">=", r3, key(fn, "upper-bound:>="), fn.Pos(), len(ops["upperbound"])+1, "at-or-above-upper test is `>=`", fmt.Sprintf("%s tests the upper bound with %v (expected only `>=`: the upper bound is exclusive)", t[0], hi))
+		var emits []ssa.Instruction
+		for _, st := range fieldStoresIn(fn, false, t[1], "valid") {
+			if sv, ok := st.(*ssa.Store); ok {
+				if k, isC := sv.Val.(*ssa.Const); isC && k.Value != nil && k.Value.String() == "true" {
+					emits = append(emits, st)
+				}
+			}
+		}
+		if len(emits) == 0 {
+			c.Fail(r3, key(fn, "has:emit-site"), fn.Pos(), 1, "%s never marks the iterator valid", t[0])
+			continue
+		}
+		reach := func(signs map[string]int) (bool, int) {
+			env := &SignEnv{Role: iterBoundRole, Signs: signs, Depth: 2}
+			hit := false
+			for _, e := range emits {
+				if env.Reaches(fn, e) {
+					hit = true
+				}
+			}
+			return hit, env.Visited
+		}
+		mk := func(loSet, hiSet int, kl, kh int) map[string]int {
+			m := map[string]int{}
+			SetSign(m, "len(lo)", "0", loSet)
+			SetSign(m, "len(hi)", "0", hiSet)
+			if loSet == 1 {
+				SetSign(m, "key", "lo", kl)
+			}
+			if hiSet == 1 {
+				SetSign(m, "key", "hi", kh)
+			}
+			return m
+		}
+		below, n1 := reach(mk(1, 0, -1, 0))
+		atLo, n2 := reach(mk(1, 0, 0, 0))
+		aboveLo, n3 := reach(mk(1, 0, 1, 0))
+		c.Decide(!below && atLo && aboveLo, r3, key(fn, "lower-bound:<"), fn.Pos(), n1+n2+n3, "a key below the lower bound is never yielded, the bound itself and keys above are (lower bound inclusive)",
+			fmt.Sprintf("%s with a lower bound set: key<bound yielded=%v (want false), key==bound yielded=%v (want true), key>bound yielded=%v (want true)", t[0], below, atLo, aboveLo))
+		under, m1 := reach(mk(0, 1, 0, -1))
+		atHi, m2 := reach(mk(0, 1, 0, 0))
+		aboveHi, m3 := reach(mk(0, 1, 0, 1))
+		c.Decide(under && !atHi && !aboveHi, r3, key(fn, "upper-bound:>="), fn.Pos(), m1+m2+m3, "a key at or above the upper bound is never yielded, keys below are (upper bound exclusive)",
+			fmt.Sprintf("%s with an upper bound set: key<bound yielded=%v (want true), key==bound yielded=%v (want false), key>bound yielded=%v (want false)", t[0], under, atHi, aboveHi))
+	}
+	for _, t := range [][2]string{{"DBIterator.Seek", "NoKV.DBIterator"}, {"TxnIterator.Seek", "NoKV.TxnIterator"}} {
+		fn := c.Fn("", t[0])
+		if fn == nil {
+			continue
+		}
+		seekM := MethodNamed("utils.Iterator", "Seek")
+		// the function(s) holding the underlying Seek: fn itself or helpers it dispatches to
+		holders := []*ssa.Function{}
+		if len(Calls(fn, false, seekM)) > 0 {
+			holders = append(holders, fn)
+		}
+		for _, s := range effectSites(c, fn, func(ci ssa.CallInstruction) bool { return seekM(ci.Common()) }, 1) {
+			if !seekM(s.Common()) {
+				holders = append(holders, StaticFn(s.Common()))
+			}
+		}
+		if len(holders) == 0 {
+			c.Fail(r3, key(fn, "has:underlying-Seek"), fn.Pos(), 1, "%s no longer seeks the underlying iterator", t[0])
+			continue
+		}
+		okLo, okHi, n := true, true, 0
+		for _, asc := range []bool{true, false} {
+			dir := func(v ssa.Value) Tri {
+				v = Unwrap(v)
+				if isFieldLoad(v, "NoKV.DBIterator", "isAsc") {
+					if asc {
+						return True
+					}
+					return False
+				}
+				if isFieldLoad(v, "NoKV.IteratorOptions", "Reverse") {
+					if asc {
+						return False
+					}
+					return True
+				}
+				return Unknown
+			}
+			for _, kl := range []int{0, 1} {
+				signs := map[string]int{}
+				SetSign(signs, "len(lo)", "0", 1)
+				SetSign(signs, "len(hi)", "0", 1)
+				SetSign(signs, "len(key)", "0", 1)
+				SetSign(signs, "key", "lo", kl)
+				SetSign(signs, "key", "hi", -1)
+				hit := false
+				for _, g := range holders {
+					env := &SignEnv{Role: iterBoundRole, Bool: dir, Signs: signs, Depth: 2}
+					for _, sk := range Calls(g, false, seekM) {
+						if env.Reaches(g, sk.(ssa.Instruction)) {
+							hit = true
+						}
+					}
+					n += env.Visited
+				}
+				if !hit {
+					if kl == 0 {
+						okLo = false
+					} else {
+						okHi = false
+					}
+				}
+			}
+		}
+		c.Decide(okLo, r3, key(fn, "lower-bound:<"), fn.Pos(), n, "a seek key equal to the lower bound reaches the underlying Seek in both directions", t[0]+": a seek key equal to the (inclusive) lower bound is treated as out of range")
+		c.Decide(okHi, r3, key(fn, "upper-bound:>="), fn.Pos(), n, "a seek key strictly inside the bounds reaches the underlying Seek in both directions", t[0]+": a seek key strictly inside the bounds is treated as out of range")
 	}
 	if fn := c.Fn("", "DBIterator.materialize"); fn != nil {
 		d := Calls(fn, false, Named("kv.(*Entry).IsDeletedOrExpired"))
@@ -398,7 +509,15 @@ func C35(c *Ctx) {
 		}
 	}
 	if fn := c.Fn("lsm", "table.Search"); fn != nil {
-		mc := need(c, r1, fn, false, "MayContainKey", Named("utils.(Filter).MayContainKey"), 1)
+		// the probe may live in a helper of Search (e.g. a bloomMayContain method)
+		mayM := Named("utils.(Filter).MayContainKey")
+		mc := Calls(fn, false, mayM)
+		for _, s := range effectSites(c, fn, func(ci ssa.CallInstruction) bool { return mayM(ci.Common()) }, 1) {
+			if !mayM(s.Common()) {
+				mc = append(mc, Calls(StaticFn(s.Common()), false, mayM)...)
+			}
+		}
+		c.Decide(len(mc) >= 1, r1, key(fn, "has:MayContainKey"), fn.Pos(), len(mc)+1, fmt.Sprintf("%d bloom probe site(s)", len(mc)), "expected at least 1 call(s) to MayContainKey in (*lsm.table).Search (or a helper it calls), found 0")
 		for i, m := range mc {
 			arg := m.Common().Args[len(m.Common().Args)-1]
 			ok := false
@@ -424,6 +543,13 @@ func C35(c *Ctx) {
 					neg = true
 				}
 				if _, isB := r.(*ssa.BinOp); isB {
+					neg = true
+				}
+				// handed back by a predicate helper (`return len(f) == 0 || f.MayContainKey(p)`)
+				if _, isP := r.(*ssa.Phi); isP && m.Parent() != fn {
+					neg = true
+				}
+				if _, isR := r.(*ssa.Return); isR && m.Parent() != fn {
 					neg = true
 				}
 			}
@@ -593,4 +719,48 @@ func scanBounds(c *Ctx, rule string, fns map[*ssa.Function]bool, owner string) i
 		}
 	}
 	return n
+}
+
+// iterBoundRole names the quantities the iterator bound tests compare: the candidate user key,
+// the lower and upper bound, and their lengths.
+func iterBoundRole(v ssa.Value) string {
+	v = Unwrap(v)
+	if o, f, ok := FieldOf(v); ok && (strings.HasPrefix(o, "NoKV.")) {
+		switch strings.ToLower(f) {
+		case "lowerbound":
+			return "lo"
+		case "upperbound":
+			return "hi"
+		}
+	}
+	switch x := v.(type) {
+	case *ssa.Parameter:
+		if x.Name() == "key" || x.Name() == "userKey" {
+			return "key"
+		}
+	case *ssa.Extract:
+		if call, ok := x.Tuple.(*ssa.Call); ok {
+			if o := CalleeObj(call.Common()); o != nil && (o.Name() == "SplitInternalKey" || o.Name() == "DecodeKeyCF") && x.Index == 1 {
+				return "key"
+			}
+		}
+	case *ssa.Call:
+		if bi, ok := x.Call.Value.(*ssa.Builtin); ok && bi.Name() == "len" && len(x.Call.Args) == 1 {
+			if r := iterBoundRole(x.Call.Args[0]); r != "" {
+				return "len(" + r + ")"
+			}
+			return ""
+		}
+		if o := CalleeObj(x.Common()); o != nil && o.Name() == "ParseKey" {
+			return "key"
+		}
+	case *ssa.Phi:
+		// key := param; if key < lo { key = lo }: still the seek key
+		for _, e := range x.Edges {
+			if p, ok := e.(*ssa.Parameter); ok && p.Name() == "key" {
+				return "key"
+			}
+		}
+	}
+	return ""
 }
